@@ -248,4 +248,120 @@ theorem tree_init_eq (h : Bufs) (n : Int) (kw : Dict String Arr) :
      refine peel _ _ _ _ _ (fun a7 => ?_)
      rfl)
 
+/-! ### the seven columns, by induction over the list of columns -/
+
+/-- every array of the dict is valid in the heap: it shows values, and its window lies inside its buffer -/
+def AllValid (h : Bufs) (kw : Dict String Arr) : Prop := ∀ p ∈ kw, ∃ l, Bufs.vals h p.2 = some l ∧ (l.length : Int) = p.2.len
+
+theorem get?_mem (d : Dict String Arr) (k : String) (a : Arr) (hg : Dict.get? d k = some a) : (k, a) ∈ d := by
+  simp only [Dict.get?, Option.map_eq_some_iff] at hg
+  obtain ⟨p, hp, rfl⟩ := hg
+  have h1 := List.mem_of_find?_eq_some hp
+  have h2 := List.find?_some hp
+  simp only [decide_eq_true_eq] at h2
+  cases p; simp only at h2; subst h2; exact h1
+
+theorem AllValid.grow {h : Bufs} {kw : Dict String Arr} (hv : AllValid h kw) (ext : Bufs) : AllValid (h ++ ext) kw := by
+  intro p hp
+  obtain ⟨l, hl, hlen⟩ := hv p hp
+  exact ⟨l, vals_append h ext p.2 l hl, hlen⟩
+
+theorem AllValid.filter {h : Bufs} {kw : Dict String Arr} (hv : AllValid h kw) (f : String × Arr → Bool) : AllValid h (kw.filter f) :=
+  fun p hp => hv p (List.mem_filter.1 hp).1
+
+/-- one column: the call succeeds and does what `PadOk` says; what is left of `kwargs` stays valid -/
+theorem step_ok (h : Bufs) (n pad dt : Int) (kw : Dict String Arr) (k : String) (hn : 0 ≤ n) (hv : AllValid h kw) :
+    ∃ h' r, padding1d h n (dictPopD kw k).2 pad (some dt) = some (h', r) ∧
+      PadOk h n (Dict.get? kw k) ((Dict.get? kw k).bind (Bufs.vals h)) pad dt h' r ∧ AllValid h' (dictPopD kw k).1 := by
+  have hpop : (dictPopD kw k).2 = Dict.get? kw k := rfl
+  rw [hpop]
+  cases hg : Dict.get? kw k with
+  | none =>
+    obtain ⟨h', r, he, ok⟩ := padding1d_none_ok h n pad dt hn
+    obtain ⟨ext, hext⟩ := ok.frame
+    exact ⟨h', r, he, ok, by rw [hext]; exact (hv.filter _).grow ext⟩
+  | some a =>
+    obtain ⟨l, hl, hlen⟩ := hv (k, a) (get?_mem kw k a hg)
+    obtain ⟨h', r, he, ok⟩ := padding1d_some_ok h n pad dt a l hn hl hlen
+    obtain ⟨ext, hext⟩ := ok.frame
+    refine ⟨h', r, he, ?_, by rw [hext]; exact (hv.filter _).grow ext⟩
+    simpa [Option.bind, hl] using ok
+
+/-- a column `r` of the new tree, relative to the heap `h` before the constructor ran and the heap `hF` after it: dtype, length, values; it
+shares storage with a buffer that existed before exactly when an array of the right dtype and at least `n` long was handed in, and then it IS
+the view `a[:n]` of that array -/
+structure ColOk (h hF : Bufs) (n : Int) (given : Option Arr) (pad dt : Int) (r : Arr) : Prop where
+  dtype : r.dtype = dt
+  len : r.len = n
+  vals : Bufs.vals hF r = some (colVals n (given.bind (Bufs.vals h)) pad)
+  alias_iff : r.buf < (h.length : Int) ↔ ∃ a, given = some a ∧ a.dtype = dt ∧ n ≤ a.len
+  alias_is : ∀ a, given = some a → a.dtype = dt → n ≤ a.len → r = a.pre n
+
+theorem set_fresh (d : Dict String Arr) (k : String) (r : Arr) (hk : k ∉ d.map (·.1)) : Dict.set d k r = d ++ [(k, r)] := by
+  simp [Dict.set, Dict.contains, Py.Dict.get?_none_of_not_mem d k hk]
+
+theorem padAll_ok (n : Int) (hn : 0 ≤ n) : ∀ (specs : List (String × Int × Int)) (h : Bufs) (kw acc : Dict String Arr),
+    (specs.map (·.1)).Nodup → AllValid h kw → (∀ k ∈ specs.map (·.1), k ∉ acc.map (·.1)) →
+    ∃ hF accF, padAll n specs h kw acc = some (hF, kw.filter (fun p => decide (p.1 ∉ specs.map (·.1))), accF) ∧
+      (∃ ext, hF = h ++ ext) ∧
+      accF.map (·.1) = acc.map (·.1) ++ specs.map (·.1) ∧
+      (∀ k', k' ∉ specs.map (·.1) → Dict.get? accF k' = Dict.get? acc k') ∧
+      (∀ s ∈ specs, ∃ r, Dict.get? accF s.1 = some r ∧ ColOk h hF n (Dict.get? kw s.1) s.2.1 s.2.2 r) := by
+  intro specs
+  induction specs with
+  | nil =>
+    intro h kw acc _ _ _
+    have hft : kw = List.filter (fun p => true) kw := (List.filter_eq_self.2 (fun _ _ => rfl)).symm
+    exact ⟨h, acc, by simpa [padAll] using hft, ⟨[], by simp⟩, by simp, fun _ _ => rfl, fun s hs => absurd hs (by simp)⟩
+  | cons s rest ih =>
+    obtain ⟨k, pad, dt⟩ := s
+    intro h kw acc hnd hv hacc
+    simp only [List.map_cons, List.nodup_cons] at hnd
+    obtain ⟨h1, r, he, ok, hv1⟩ := step_ok h n pad dt kw k hn hv
+    obtain ⟨ext, hext⟩ := ok.frame
+    have hk_acc : k ∉ acc.map (·.1) := hacc k (by simp)
+    have hacc1 : ∀ k2 ∈ rest.map (·.1), k2 ∉ (Dict.set acc k r).map (·.1) := by
+      intro k2 hk2
+      rw [set_fresh acc k r hk_acc]
+      simp only [List.map_append, List.map_cons, List.map_nil, List.mem_append, List.mem_singleton, not_or]
+      exact ⟨hacc k2 (by simp [hk2]), fun c => hnd.1 (c ▸ hk2)⟩
+    obtain ⟨hF, accF, hpa, ⟨ext', hext'⟩, hkeys, hget, hcols⟩ := ih h1 (dictPopD kw k).1 (Dict.set acc k r) hnd.2 hv1 hacc1
+    refine ⟨hF, accF, ?_, ⟨ext ++ ext', by rw [hext', hext, List.append_assoc]⟩, ?_, ?_, ?_⟩
+    · simp only [padAll, he, Option.bind_some, hpa]
+      congr 3
+      simp only [dictPopD, List.filter_filter, List.map_cons, List.mem_cons, not_or]
+      apply List.filter_congr
+      intro p _
+      by_cases c1 : p.1 = k <;> by_cases c2 : p.1 ∈ rest.map (·.1) <;> simp [c1, c2]
+    · rw [hkeys, set_fresh acc k r hk_acc]; simp
+    · intro k' hk'
+      simp only [List.map_cons, List.mem_cons, not_or] at hk'
+      rw [hget k' hk'.2, Py.Dict.get?_set, if_neg hk'.1]
+    · intro s hs
+      rcases List.mem_cons.1 hs with rfl | hs
+      · refine ⟨r, ?_, ok.dtype, ok.len, ?_, ok.alias_iff, fun a ha hd hl => (ok.alias_is a ha hd hl).1⟩
+        · rw [hget k hnd.1, Py.Dict.get?_set, if_pos rfl]
+        · rw [hext']; exact vals_append h1 ext' r _ ok.vals
+      · obtain ⟨r2, hr2, c⟩ := hcols s hs
+        have hne : s.1 ≠ k := fun e => hnd.1 (e ▸ List.mem_map_of_mem hs)
+        have hgk : Dict.get? (dictPopD kw k).1 s.1 = Dict.get? kw s.1 := by
+          simp only [dictPopD]; rw [Py.Dict.get?_filter_ne, if_neg hne]
+        rw [hgk] at c
+        have hvals : (Dict.get? kw s.1).bind (Bufs.vals h1) = (Dict.get? kw s.1).bind (Bufs.vals h) := by
+          cases hg : Dict.get? kw s.1 with
+          | none => rfl
+          | some a =>
+            obtain ⟨l, hl, _⟩ := hv (s.1, a) (get?_mem kw s.1 a hg)
+            simp only [Option.bind_some, hl, hext, vals_append h ext a l hl]
+        refine ⟨r2, hr2, c.dtype, c.len, by rw [← hvals]; exact c.vals, ?_, c.alias_is⟩
+        constructor
+        · intro hb
+          apply c.alias_iff.1
+          rw [hext]; simp only [List.length_append]; push_cast; omega
+        · rintro ⟨a, ha, hd, hl⟩
+          have := c.alias_is a ha hd hl
+          obtain ⟨l, hl', _⟩ := hv (s.1, a) (get?_mem kw s.1 a ha)
+          rw [this]
+          exact (vals_valid h a l hl').2
+
 end RefineCtorInit
